@@ -61,6 +61,11 @@ def make_model(params: dict, read=True) -> Model:
     return m
 
 
+def unwrapped(f):
+    """the plain function behind a memoising decorator (the memo is an implementation detail the harnesses bypass)."""
+    return getattr(f, '__wrapped__', f)
+
+
 def is_param(x):
     return isinstance(x, (P.Parameter, P.OutputParameter))
 
